@@ -155,6 +155,96 @@ theorem upnSlices_v0_panics (b : Bytes) (h : b.length ≥ 65536) : (upnSlices_v0
   rw [this]
   rfl
 
+/-! ### the record walk of keytab.Unmarshal -/
+
+theorem readI32_total (b : Bytes) (n : Int) (le : Bool) : (readI32 b n le).NoPanic := by
+  unfold readI32
+  by_cases h0 : n < 0
+  · rw [if_pos h0]; rfl
+  · rw [if_neg h0]
+    by_cases h1 : n + 4 > b.length
+    · rw [if_pos h1]; rfl
+    · rw [if_neg h1]
+      obtain ⟨s, hs⟩ := goSlice_ok b n (n + 4) (by omega) (by omega) (by omega)
+      rw [hs]; rfl
+
+/-- **walk_total.** the walk over the records of a keytab never panics: not on lengths that point past the
+    end, not on holes of any size (the least 32-bit value included, whose negation is itself), not on a
+    file that ends inside a length field -/
+theorem walk_total (b : Bytes) (le : Bool) (f : Nat) (n l : Int) : (walk b le f n l).NoPanic := by
+  induction f generalizing n l with
+  | zero => rfl
+  | succ f ih =>
+    unfold walk
+    by_cases hl0 : l = 0
+    · rw [if_pos hl0]; rfl
+    · rw [if_neg hl0]
+      -- the continuation after a step that did not fail
+      have cont : ∀ (n' : Int) (es : List Bytes),
+          (if n' < 0 ∨ n' > b.length then (ok es : Outcome (List Bytes))
+           else goSliceFrom b n' >>= fun tail =>
+             if tail.length < 4 then ok es
+             else readI32 b n' le >>= fun (l', n'') => walk b le f n'' l' >>= fun rest => ok (es ++ rest)).NoPanic := by
+        intro n' es
+        by_cases hb : n' < 0 ∨ n' > b.length
+        · rw [if_pos hb]; rfl
+        · rw [if_neg hb]
+          unfold goSliceFrom
+          obtain ⟨t, ht⟩ := goSlice_ok b n' b.length (by omega) (by omega) (by omega)
+          rw [ht]; simp only [bind_ok]
+          by_cases h4 : t.length < 4
+          · rw [if_pos h4]; rfl
+          · rw [if_neg h4]
+            apply noPanic_bind _ _ (readI32_total b n' le)
+            intro p _
+            apply noPanic_bind _ _ (ih p.2 p.1)
+            intro rest _
+            rfl
+      by_cases hneg : l < 0
+      · simp only [hneg, if_true, bind_ok]
+        exact cont _ _
+      · simp only [hneg, if_false]
+        by_cases hn : n < 0
+        · simp only [hn, if_true, bind_err]; rfl
+        · simp only [hn, if_false]
+          by_cases hs : n + l > b.length
+          · simp only [hs, if_true, bind_err]; rfl
+          · simp only [hs, if_false]
+            obtain ⟨eb, he⟩ := goSlice_ok b n (n + l) (by omega) (by omega) (by omega)
+            rw [he]; simp only [bind_ok]
+            exact cont _ _
+
+/-- **ktRecords_total.** -/
+theorem ktRecords_total (b : Bytes) (host : Bool) : (ktRecords b host).NoPanic := by
+  unfold ktRecords
+  by_cases h : b.length < 2
+  · rw [if_pos h]; rfl
+  · rw [if_neg h]
+    obtain ⟨x0, h0⟩ := goIdx_ok b 0 (by omega)
+    obtain ⟨x1, h1⟩ := goIdx_ok b 1 (by omega)
+    simp only [Int.cast_ofNat_Int] at h0 h1
+    show ((goIdx b 0) >>= _).NoPanic
+    rw [h0]; simp only [bind_ok]
+    by_cases hb : x0 ≠ 5
+    · rw [if_pos hb]; rfl
+    · rw [if_neg hb]
+      show ((goIdx b 1) >>= _).NoPanic
+      rw [h1]; simp only [bind_ok]
+      by_cases hv : x1 ≠ 1 ∧ x1 ≠ 2
+      · rw [if_pos hv]; rfl
+      · rw [if_neg hv]
+        by_cases h2 : b.length = 2
+        · rw [if_pos h2]; rfl
+        · rw [if_neg h2]
+          apply noPanic_bind _ _ (readI32_total b 2 _)
+          intro p _
+          exact walk_total b _ _ _ _
+
+/-- a hole of the least 32-bit length sends the position below zero and ends the walk without a panic -/
+example : walk [5, 2, 0x80, 0, 0, 0, 1, 2, 3, 4] false 10 6 (-2147483648) = ok [] := by decide
+/-- two records, a hole between them -/
+example : ktRecords [5, 2, 0, 0, 0, 1, 9, 0xff, 0xff, 0xff, 0xfe, 0, 0, 0, 0, 0, 2, 7, 8] false = ok [[9], [7, 8]] := by decide
+
 /-! ### the unrepaired code, by witness -/
 
 theorem v0_witnesses :
